@@ -24,6 +24,10 @@ RULE = (
     "sequential outcome; a document read whose open() is ordered after the k-th completed rename of that document "
     "returns version k. Non-trivial and distinct = distinct Mazurkiewicz traces (Foata normal form hash) executed."
 )
+RULE += (
+    " " + 'Added later: scenarios doc-assign-vs-reader (job.document = {...}) and stale-handle-lists-while-workspace-appears (a pickled Project handle).'
+    " In every third case DEBUG logging is effective for the package."
+)
 ASSUMPTIONS = [
     "One kernel, FS calls serialised by the controller (sequentially consistent local file system); a C-level directory "
     "listing is one step.",
